@@ -88,7 +88,9 @@ def _reset_lru():
 
 def execute(spec, choices: Choices, forced=None):
     """Run one simulated execution; returns (RunResult | None, error string | None)."""
-    faulthandler.dump_traceback_later(RUN_WALL_S, exit=True)
+    # (a deterministic case may declare that it needs longer than the usual per-run wall limit)
+    faulthandler.dump_traceback_later(int((forced or {}).get("wall_s", RUN_WALL_S)) if isinstance(forced, dict)
+                                      else RUN_WALL_S, exit=True)
     reset_process_caches()
     try:
         res = spec.run(choices, forced) if forced is not None else spec.run(choices)
